@@ -20,6 +20,7 @@ UNITS = {
     'hash': dict(module='units.hash', rlimit=50, timeout=300),
     'rollback': dict(module='units.rollback', rlimit=50, timeout=300),
     'arrow': dict(module='units.arrow', rlimit=150, timeout=600),
+    'slpp': dict(module='units.slpp', rlimit=150, timeout=600),
 }
 
 PROPS = {
@@ -62,7 +63,7 @@ PROPS = {
         kani=[],
     ),
     'C07': dict(
-        units=[('reader', r'(C07|^read$|^parse_header|^parse_payloads|^parse_game_start|^parse_start|^parse_metadata|expect_bytes)'), ('event', r'(C07|parse_event__total)'), ('ubjson', r'(C07)')],
+        units=[('reader', r'(C07|^read$|^parse_header|^parse_payloads|^parse_game_start|^parse_start|^parse_metadata|expect_bytes)'), ('event', r'(C07|parse_event__total)'), ('ubjson', r'(C07)'), ('slpp', r'(C07|read_arrow_frames)')],
         kani=[],
     ),
     'C12': dict(
@@ -70,7 +71,7 @@ PROPS = {
         kani=[],
     ),
     'C10': dict(
-        units=[('reader', r'(C10|^read$|^parse_start)')],
+        units=[('reader', r'(C10|^read$|^parse_start)'), ('slpp', r'(C10|lemma_skip_frames)')],
         kani=[],
     ),
     'C08': dict(
@@ -78,7 +79,7 @@ PROPS = {
         kani=[],
     ),
     'C09': dict(
-        units=[('ser', r'(C09|write__c09)')],
+        units=[('ser', r'(C09|write__c09)'), ('slpp', r'(C09)')],
         kani=['c09_assert_max_version'],
     ),
     'C20': dict(
@@ -90,7 +91,16 @@ PROPS = {
         kani=[],
     ),
     'C11': dict(
-        units=[('hash', r'(HashingReader|format_hash|C11|::new|into_digest|seek|::read$)'), ('reader', r'(C11|^read$)')],
+        units=[('hash', r'(HashingReader|format_hash|C11|::new|into_digest|seek|::read$)'), ('reader', r'(C11|^read$)'), ('slpp', r'(C11)')],
+        kani=[],
+    ),
+    'C18': dict(
+        units=[('slpp', r'(tar_append|^write$|^read$|read_peppi|lemma_unknown|lemma_run_|C18)')],
+        kani=['c18_assert_current_version'],
+    ),
+    'C02': dict(
+        units=[('slpp', r'(tar_append|^write$|^read$|read_peppi|read_arrow_frames|lemma_slpp_roundtrip|lemma_run_concat|lemma_names|C02|C18\.)'),
+               ('arrow', r'(into_struct_array|from_struct_array|lemma_arrow_roundtrip|C14\.(export|import|roundtrip)|arrow2\.)')],
         kani=[],
     ),
     'C14': dict(
